@@ -483,6 +483,20 @@ Proof. intros bits a b H0 HbB HB Ca Cb. exact (g_u_wrappers_eq bits H0 HbB HB a 
 Print Assumptions GenTie_gcd_uint.
 Print Assumptions GenTie_gcd_rs.
 
+(* src/modular.rs: mul_mod — the product buffer `[[0u64; 2]; LIMBS]` is viewed as `&mut [u64]` of
+   nlimbs(2*BITS) words through from_raw_parts_mut (more words than the buffer has = Panic); the kernels
+   algorithms::addmul and algorithms::div are Model/Limbs.v / Model/Div.v on both sides — and pow_mod,
+   whose `while exp > ZERO` runs with the round bound BITS + 1 *)
+Theorem GenTie_modular_pow : forall bits a e m,
+  0 <= bits -> nlimbs bits < B -> 2 * bits + 63 < B -> length e = nlimbsN bits ->
+  g_mul_mod bits (nlimbs bits) a e m = Modular.mul_mod bits a e m /\
+  g_pow_mod bits (nlimbs bits) a e m = Modular.pow_mod bits a e m.
+Proof.
+  intros bits a e m H0 HB HB2 Le.
+  exact (conj (g_mul_mod_eq bits a e m H0 HB2) (g_pow_mod_eq bits a e m H0 HB HB2 Le)).
+Qed.
+Print Assumptions GenTie_modular_pow.
+
 (* the premises are satisfiable and the generated code computes: reciprocal(2^63) = 2^64 - 1 *)
 Example GenTie_nonvacuous :
   g_reciprocal_mg10 (2 ^ 63) = Val (2 ^ 64 - 1) /\ g_mask 65 = Val 1 /\ g_nlimbs 65 = Val 2 /\
@@ -512,6 +526,7 @@ Example GenTie_nonvacuous :
   g_mat_from_u64_prefix (2 ^ 63 + 12345) (2 ^ 62 + 999) = Val (0, 1, 1, 2, false) /\
   g_mat_from_u64_prefix (2 ^ 63 + 12345) 5700357408780482764 = Val (1009150, 1632839, 1536909, 2486771, false) /\
   g_mat_compose (1, 2, 3, 4, true) (5, 6, 7, 8, false) = Val (19, 22, 43, 50, false) /\
+  g_pow_mod 65 2 [3; 0] [100; 0] [2 ^ 64 - 59; 1] = Val [13508270538830933661; 0] /\
   g_add_mod 65 2 [2 ^ 64 - 1; 1] [2 ^ 64 - 1; 1] [2 ^ 64 - 3; 1] = Val [4; 0] /\
   g_u_mul_redc 64 1 [3] [5] [15] 0x1111111111111111 = Val [0] /\
   g_overflowing_pow 65 2 [3; 0] [41; 0] = Val ([36472996377170786403 mod 2 ^ 64; 1], false) /\
